@@ -110,8 +110,11 @@ impl Prop for C03 {
                 if suite == "ed448" && n > 4 {
                     continue;
                 }
-                for kind in ["refresh-dealer", "refresh-dkg", "repair"] {
+                for kind in ["refresh-dealer", "refresh-dkg", "repair", "refresh-dkg-lowered-legacy"] {
                     for extra in [0u16, 1] {
+                        if kind == "refresh-dkg-lowered-legacy" && t < 3 {
+                            continue;
+                        }
                         let r = t + extra;
                         if r > n || (kind == "repair" && extra == 1) || (kind == "repair" && t + 1 > n) {
                             continue;
@@ -200,6 +203,12 @@ pub fn maintained<C: Suite>(grp: &Grp<C>, kind: &str, extra: u16, seed: &str) ->
     match kind {
         "refresh-dealer" => refresh_dealer::<C>(&root, &members, seed).map(|nd| (nd.kps, nd.pkp, members.clone())),
         "refresh-dkg" => refresh_dkg::<C>(&root, &members, seed, *t).map(|nd| (nd.kps, nd.pkp, members.clone())),
+        // an ATTEMPT to lower the threshold by running the distributed refresh with t - 1 while holding the
+        // pre-3.0 public key package (no threshold in it); Err is the expected (correct) outcome
+        "refresh-dkg-lowered-legacy" => {
+            let legacy = Node { t: *t, kps: grp.kps.clone(), pkp: PublicKeyPackage::<C>::new(grp.pkp.verifying_shares().clone(), *grp.pkp.verifying_key(), None), prev: None };
+            refresh_dkg::<C>(&legacy, &members, seed, *t - 1).map(|nd| (nd.kps, nd.pkp, members.clone()))
+        }
         _ => {
             // the last participant loses its package; exactly t helpers (the first t) repair it
             let target = *grp.ids.last().unwrap();
@@ -249,6 +258,12 @@ fn run_maintained<C: Suite>(c: &Case) -> Outcome {
     let made = maintained::<C>(&grp, kind, *extra, seed);
     let (kps, pkp, ids) = match made {
         Ok(x) => x,
+        Err(_) if kind == "refresh-dkg-lowered-legacy" => {
+            // refused, as it must be: nothing to drive
+            o.eval(true);
+            o.count("lowered_refresh_refused", 1);
+            return o;
+        }
         Err(e) => {
             o.eval(false);
             o.fail(format!("{tag}/{kind}-failed"), format!("n={n} t={t} holders={r}: {e}"));
